@@ -152,7 +152,9 @@ func (d *DID) AdvanceRecover(nextRec, nextUpd *Key) {
 }
 
 // ForgedKinds enumerates the unauthorised variants of C01.
-var ForgedKinds = []string{"otherkey", "forgedsig", "sigflip", "payload", "revealmismatch"}
+var ForgedKinds = []string{"otherkey", "forgedsig", "sigflip", "payload", "revealmismatch",
+	// a bad signature combined with a second defect (checks must not be reordered around early returns)
+	"forgedsig+swapdelta", "forgedsig+nodelta", "forgedsig+disabled", "forgedsig+failpatch"}
 
 // Forge makes an unauthorised variant of the given type against the current keys.
 func (d *DID) Forge(ty operation.Type, kind string, n int) Spec {
@@ -178,6 +180,16 @@ func (d *DID) Forge(ty operation.Type, kind string, n int) Spec {
 		}
 	case "forgedsig":
 		s.SignWith = stranger
+	case "forgedsig+swapdelta":
+		s.SignWith, s.Tamper = stranger, TSwapDelta
+	case "forgedsig+nodelta":
+		s.SignWith, s.Tamper = stranger, TNoDelta
+	case "forgedsig+disabled":
+		s.SignWith = stranger
+		s.Patches, s.DValid, s.PatchOK = DisabledPatches(), false, true
+	case "forgedsig+failpatch":
+		s.SignWith = stranger
+		s.Patches, s.DValid, s.PatchOK = FailingPatches(), true, false
 	case "sigflip":
 		s.Tamper = TSigFlip
 	case "payload":
